@@ -628,7 +628,22 @@ def g_declined_inplace(R, tier):
                        "the result of the in-place method is stored even when it is NotImplemented (Python then evaluates `x op v`)", pre + body)
 
 
-GROUPS = {"declined_inplace": g_declined_inplace, "op_table": g_op_table, "assign_tuple_list": g_tuple_list, "assign_auto": g_assign_auto, "leaf_targets": g_leaf_targets,
+def g_witness(R, tier):
+    """clauses of the property that the reading of the builtins abstracts from (spec/target_lang:
+    tuple(x) is read as 'iterate x once', obj.__setitem__(k, v) as 'store v under k'): decided by
+    witness programs against the real converter"""
+    from suites import c06
+    c06.native_finding(R, "pending_nodes.PendingAssign.assign_tuple_list/W1-unpacking-only-iterates-the-value",
+                       "Language Reference 7.2: unpacking iterates the value; `tuple(value)` also asks it for a length hint (__len__ / __length_hint__ are called)",
+                       "log = []\nclass S:\n    def __iter__(self):\n        return iter((1, 2))\n    def __len__(self):\n        log.append('len')\n        return 2\na, b = S()\nr = (a, b, log)\n")
+    c06.native_finding(R, "pending_nodes.PendingAssign.assign_subscript/W2-subscript-stores-go-through-the-type-of-the-object",
+                       "data model 3.3.12: `obj[k] = v` looks __setitem__ up on type(obj); `obj.__setitem__(k, v)` is an attribute lookup on obj "
+                       "(a class whose metaclass defines __setitem__, an instance attribute named __setitem__)",
+                       "class Meta(type):\n    def __setitem__(cls, key, value):\n        cls.registry[key] = value\nclass K(metaclass=Meta):\n    registry = {}\n"
+                       "    def __setitem__(self, key, value):\n        self.registry[key] = ('instance', value)\nK['a'] = 1\nr = K.registry\n")
+
+
+GROUPS = {"witness": g_witness, "declined_inplace": g_declined_inplace, "op_table": g_op_table, "assign_tuple_list": g_tuple_list, "assign_auto": g_assign_auto, "leaf_targets": g_leaf_targets,
           "convert_slice": g_convert_slice, "get_result": g_get_result, "augassign": g_augassign, "canary": g_canary}
 
 
